@@ -9,6 +9,7 @@ import (
 	"fmt"
 	"sort"
 	"strings"
+	"sync/atomic"
 
 	"pgregory.net/rapid"
 )
@@ -102,7 +103,14 @@ type MOp struct {
 	Key   Val
 	T     int64
 	Cols  map[string]Val
+	// Seq orders operations that carry the same write time (statements of one transaction
+	// without explicit write_time): the later statement counts. Not part of the identity.
+	Seq int64
 }
+
+var opSeq int64
+
+func nextSeq() int64 { return atomic.AddInt64(&opSeq, 1) }
 
 func (o MOp) id() string {
 	names := make([]string, 0, len(o.Cols))
@@ -129,11 +137,21 @@ func (s MSet) Clone() MSet {
 	return n
 }
 
-func (s MSet) Add(o MOp) { s[o.id()] = o }
+func (s MSet) Add(o MOp) {
+	if o.Seq == 0 {
+		o.Seq = nextSeq()
+	}
+	if old, ok := s[o.id()]; ok && old.Seq > o.Seq {
+		// the same operation seen again (retry, or merged from another version): it keeps
+		// the latest position it was issued at (under equal write times the later statement counts)
+		o.Seq = old.Seq
+	}
+	s[o.id()] = o
+}
 
 func (s MSet) Union(o MSet) {
-	for k, v := range o {
-		s[k] = v
+	for _, v := range o {
+		s.Add(v)
 	}
 }
 
@@ -152,12 +170,13 @@ func (s MSet) Equal(o MSet) bool {
 // status returns, for key id, whether the row is live, the time of the latest
 // INSERT/DELETE and whether any exists.
 func (s MSet) status(keyID string) (live bool, t int64, any bool) {
+	var seq int64
 	for _, o := range s {
 		if o.KeyID != keyID || o.Kind == 'U' {
 			continue
 		}
-		if !any || o.T > t || (o.T == t && o.Kind == 'D') {
-			any, t, live = true, o.T, o.Kind == 'I'
+		if !any || o.T > t || (o.T == t && o.Seq > seq) {
+			any, t, seq, live = true, o.T, o.Seq, o.Kind == 'I'
 		}
 	}
 	return
@@ -171,9 +190,10 @@ type MRow struct {
 // Table evaluates the visible rows: key id -> row.
 func (s MSet) Table(cols []string) map[string]MRow {
 	type best struct {
-		t int64
-		v Val
-		ok bool
+		t   int64
+		seq int64
+		v   Val
+		ok  bool
 	}
 	out := map[string]MRow{}
 	ids := map[string]bool{}
@@ -187,20 +207,21 @@ func (s MSet) Table(cols []string) map[string]MRow {
 		}
 		row := MRow{Cells: map[string]Val{}}
 		cell := map[string]best{}
+		var keySeq int64
 		for _, o := range s {
 			if o.KeyID != id {
 				continue
 			}
-			if o.Kind == 'I' && o.T == insT {
-				row.Key = o.Key
+			if o.Kind == 'I' && o.T == insT && o.Seq >= keySeq {
+				row.Key, keySeq = o.Key, o.Seq
 			}
 			if o.Kind == 'D' {
 				continue
 			}
 			for c, v := range o.Cols {
 				b := cell[c]
-				if !b.ok || o.T > b.t {
-					cell[c] = best{o.T, v, true}
+				if !b.ok || o.T > b.t || (o.T == b.t && o.Seq > b.seq) {
+					cell[c] = best{o.T, o.Seq, v, true}
 				}
 			}
 		}
@@ -241,11 +262,11 @@ func (s MSet) Exec(st Stmt, cols []string) (outcome string, added []MOp, matched
 		for i, k := range st.Keys {
 			id := keyClassID(k)
 			live, t, any := s.status(id)
-			if seen[id] || live || (any && !live && t >= st.T) {
+			if seen[id] || live || (any && !live && t > st.T) {
 				return "constraint-key", nil, 0
 			}
 			seen[id] = true
-			o := MOp{Kind: 'I', KeyID: id, Key: k, T: st.T, Cols: map[string]Val{}}
+			o := MOp{Kind: 'I', KeyID: id, Key: k, T: st.T, Cols: map[string]Val{}, Seq: nextSeq()}
 			for _, c := range cols {
 				o.Cols[c] = vNull()
 			}
@@ -273,7 +294,7 @@ func (s MSet) Exec(st Stmt, cols []string) (outcome string, added []MOp, matched
 		}
 		sort.Strings(ids)
 		for _, id := range ids {
-			o := MOp{KeyID: id, Key: tbl[id].Key, T: st.T}
+			o := MOp{KeyID: id, Key: tbl[id].Key, T: st.T, Seq: nextSeq()}
 			if st.Kind == "upd" {
 				o.Kind = 'U'
 				o.Cols = map[string]Val{}
